@@ -134,6 +134,7 @@ CHECKS["C03"] = dict(
     rule="rapidcheck-generated scenes (<=12 shapes quick, <=16 thorough); non-trivial = the straight segment between a judged "
          "connector's endpoints passes through a shape interior, so the route has to bend; distinct by FNV-1a of the case text",
     min_nontrivial=dict(quick=1000, thorough=50000),
+    max_aborted_frac=0.004,
     assumptions=["orthogonal routing is judged against the shapes themselves but path existence against their bounding boxes (what the orthogonal router uses)"],
 )
 
@@ -147,6 +148,7 @@ CHECKS["C04"] = dict(
     level_note="Oracle visibility uses the same exact interior predicate as C03 (long double, 1e-9 margin on lattice input).",
     rule="rapidcheck-generated separated scenes (<=10 shapes quick, <=14 thorough), <=4 connectors; non-trivial = the route has >=1 bend; distinct by FNV-1a of the case text",
     min_nontrivial=dict(quick=800, thorough=40000),
+    max_aborted_frac=0.005,
     assumptions=[],
 )
 
@@ -161,6 +163,7 @@ CHECKS["C05"] = dict(
     rule="rapidcheck-generated scenes (<=9 rectangles quick, <=12 thorough), <=3 connectors; non-trivial = the optimum has >=1 bend and a rectangle meets the endpoints' bounding box; plus the 768-entry estimator table (each entry distinct by construction)",
     exhaustive=False,
     min_nontrivial=dict(quick=800, thorough=40000),
+    max_aborted_frac=0.005,
     assumptions=[],
 )
 
@@ -179,6 +182,7 @@ CHECKS["C06"] = dict(
     rule="rapidcheck-generated operation sequences over a live scene model; non-trivial = the history has >= 2 transactions and moves "
          "away / deletes a shape whose corner the previous route touched, or adds / moves a shape onto a previous route; distinct by FNV-1a of the case text",
     min_nontrivial=dict(quick=300, thorough=20000),
+    max_aborted_frac=0.005,
     assumptions=["no moveShape/deleteShape of a shape added in the same open transaction (documented precondition)"],
 )
 
@@ -197,6 +201,7 @@ CHECKS["C10"] = dict(
                "reduced nudging distance is not observable, so only 'separated' (distance > 1e-9) is required of separated segments.",
     rule="rapidcheck-generated corridor scenes; non-trivial = the un-nudged routes of at least two connectors share a stretch of positive length; distinct by FNV-1a of the case text",
     min_nontrivial=dict(quick=800, thorough=40000),
+    max_aborted_frac=0.02,
     assumptions=[],
 )
 
@@ -234,6 +239,7 @@ CHECKS["C14"] = dict(
     rule="rapidcheck-generated connected graphs in five families; non-trivial = the graph has a cycle and a degree-1 node (so both the core "
          "and the tree pipeline run); distinct by FNV-1a of the case text",
     min_nontrivial=dict(quick=40, thorough=3000),
+    max_aborted_frac=0.02,
     assumptions=["no multi-edges, no self-loops, connected (the property's quantifier)"],
 )
 
@@ -253,6 +259,7 @@ CHECKS["C19"] = dict(
     rule="rapidcheck-generated graphs; non-trivial = peel: at least one tree of >=3 nodes and a core of >=2 nodes; components: >=2 "
          "components; planarise: the routed input has >=1 crossing; distinct by FNV-1a of the case text",
     min_nontrivial=dict(quick=800, thorough=40000),
+    max_aborted_frac=0.002,
     assumptions=["simple graphs (no self-loops, no multi-edges); connected for peel()"],
 )
 
@@ -272,6 +279,7 @@ CHECKS["C11"] = dict(
     rule="rapidcheck-generated pin scenes and move histories; non-trivial = some connector has >= 2 candidate pins, or a checkpoint, or the "
          "history contains a move; distinct by FNV-1a of the case text",
     min_nontrivial=dict(quick=800, thorough=40000),
+    max_aborted_frac=0.005,
     assumptions=["distinct pin positions per class (the library's pin set de-duplicates equal pins)"],
 )
 
@@ -290,6 +298,7 @@ CHECKS["C12"] = dict(
     rule="rapidcheck-generated hyperedge scenes; non-trivial = the rerouter or improver changed the topology (non-empty new/deleted lists) "
          "or the hyperedge was registered for rerouting; distinct by FNV-1a of the case text",
     min_nontrivial=dict(quick=500, thorough=20000),
+    max_aborted_frac=0.01,
     assumptions=[],
 )
 
@@ -338,6 +347,7 @@ CHECKS["C13"] = dict(
                "signature clause is covered only through these local conditions (a global signature is not invariant when end nodes move).",
     rule="rapidcheck-generated scenes; non-trivial = at least one initial route has a bend and at least one node moved by more than its own size; distinct by FNV-1a of the case text",
     min_nontrivial=dict(quick=600, thorough=5000),
+    max_aborted_frac=0.008,
     assumptions=["initial routes come from libavoid (UseLeesAlgorithm, no invisibility graph), as in libtopology/tests/beautify.cpp"],
 )
 
@@ -357,6 +367,7 @@ CHECKS["C20"] = dict(
     rule="rapidcheck-generated metamorphic pairs; non-trivial = the case has something to tie-break or to bend around: a VPSC constraint violated "
          "by the desired positions, two rectangles with equal centre coordinates, a route with a bend, a layout of >= 3 nodes; distinct by FNV-1a of the case text",
     min_nontrivial=dict(quick=10000, thorough=100000),
+    max_aborted_frac=0.002,
     assumptions=["all translated coordinates stay below 2^20 in magnitude so every translated input is exactly representable"],
 )
 
@@ -386,7 +397,7 @@ CHECKS["C15"] = dict(
     rule="libFuzzer executions of decoded API histories; non-trivial = the history contains at least one deletion and at least two "
          "processTransaction calls and did not end in a known assertion; distinct by FNV-1a of the decoded operation trace",
     min_nontrivial=dict(quick=2000, thorough=50000),
-    max_aborted_frac=0.2,
+    max_aborted_frac=0.05,
     assumptions=["histories respect the documented preconditions: no deleteShape/deleteJunction of an object added in the open transaction, no use of a deleted handle (including those reported by newAndDeletedObjectListsFromHyperedgeImprovement), pin classes only where such a pin exists, no identical duplicate pins, no connector with both ends on one junction",
                  "improveHyperedgeRoutesMovingAddingAndDeletingJunctions is generated only with transactions on: its read-the-lists-before-the-next-processTransaction protocol cannot be followed when every call processes",
                  "junction-junction connectors never close a cycle (open finding F34, excluded by construction)"],
